@@ -27,6 +27,7 @@ import (
 	"os"
 	"os/exec"
 	"path/filepath"
+	"regexp"
 	"sort"
 	"strconv"
 	"strings"
@@ -87,6 +88,63 @@ type Case struct {
 	Dirty bool `json:"dirty,omitempty"`
 	// CLI types: this command of the login/set-up dialogue is answered with an error line
 	ErrOn string `json:"err_on,omitempty"`
+	// checkbanner regexp ("" = NetSPoC) and the text the device shows in its login banner /
+	// /etc/issue ("" = according to Marker); Marker then only says configured / unconfigured
+	BannerRe   string `json:"banner_re,omitempty"`
+	MarkerText string `json:"marker_text,omitempty"`
+	// NSX: 0 = no gateway policies, 1 = one of Netspoc, 2 = Netspoc-v1, a foreign one, Netspoc-v2;
+	// page size of the services listing; empty pages of the groups listing
+	NsxPolicies int `json:"nsx_policies,omitempty"`
+	PageSize    int `json:"page_size,omitempty"`
+	GroupPages  int `json:"group_pages,omitempty"`
+	// PAN-OS: PEND answers of the commit job before OK
+	Pend int `json:"pend,omitempty"`
+}
+
+func (c Case) bannerRe() string {
+	if c.BannerRe != "" {
+		return c.BannerRe
+	}
+	return "NetSPoC"
+}
+
+// markerText: what the device shows where the marker belongs
+func (c Case) markerText() string {
+	if c.MarkerText != "" {
+		return c.MarkerText
+	}
+	if c.Marker == "absent" {
+		return "authorised access only"
+	}
+	return "managed by NetSPoC"
+}
+
+// markerShown (specification side, Go's regexp): does the text the device shows carry the marker?
+// ASA/IOS: anywhere in the banner; Linux: in one line of /etc/issue.
+func (c Case) markerShown() bool {
+	re, err := regexp.Compile(c.bannerRe())
+	if err != nil {
+		return false
+	}
+	if c.Backend == "linux" {
+		for _, l := range strings.Split(c.markerText(), "\n") {
+			if re.MatchString(l) {
+				return true
+			}
+		}
+		return false
+	}
+	return re.MatchString(c.markerText())
+}
+
+func (c Case) nsxPolicyIDs() []string {
+	switch c.NsxPolicies {
+	case 1:
+		return []string{"Netspoc-v1"}
+	case 2:
+		return []string{"Netspoc-v1", "foreign-policy", "Netspoc-v2"}
+	}
+	return nil
 }
 
 func (c Case) marks() string {
@@ -138,9 +196,9 @@ func (c Case) interlock() string {
 		return "hostname"
 	case c.Backend == "panos" && !haPermits(c.HA):
 		return "ha"
-	case c.Backend == "panos" && strings.Contains(c.marks(), "u"):
+	case c.Backend == "panos" && strings.ContainsAny(c.marks(), "us"):
 		return "marker"
-	case c.Backend != "nsx" && c.Backend != "panos" && c.Marker == "absent":
+	case c.Backend != "nsx" && c.Backend != "panos" && c.Marker != "unconfigured" && !c.markerShown():
 		return "marker"
 	}
 	return ""
@@ -233,7 +291,13 @@ func (c Case) httpNetspoc() string {
 	for _, i := range target {
 		l = append(l, nsxServiceJSON(i))
 	}
-	return `{"services":[` + strings.Join(l, ",") + `]}` + "\n"
+	var pol []string
+	for _, id := range c.nsxPolicyIDs() {
+		if strings.HasPrefix(id, "Netspoc") {
+			pol = append(pol, nsxPolicyJSON(id))
+		}
+	}
+	return `{"policies":[` + strings.Join(pol, ",") + `],"services":[` + strings.Join(l, ",") + `]}` + "\n"
 }
 
 func (c Case) haStates() []HAState {
@@ -267,8 +331,15 @@ func (c Case) vsys() []Vsys {
 	var l []Vsys
 	for i, m := range c.marks() {
 		d := fmt.Sprintf("FW%d-managed-by-Netspoc", i+1)
-		if m == 'u' {
+		switch m {
+		case 'u':
 			d = fmt.Sprintf("FW%d", i+1)
+		case 'U':
+			d = fmt.Sprintf("FW%d-NETSPOC", i+1) // other letter case: counts
+		case 'x':
+			d = fmt.Sprintf("fw%dxnetspocx", i+1) // inside a longer word: counts
+		case 's':
+			d = fmt.Sprintf("FW%d net spoc", i+1) // broken by a blank: does not count
 		}
 		l = append(l, Vsys{fmt.Sprintf("vsys%d", i+1), d})
 	}
@@ -311,7 +382,7 @@ func (w *world) prepare(c Case) {
 	}
 	cfg := "basedir = " + w.dir + "\nsystemuser = admin\ntimeout = " + to + "\nlogin_timeout = " + to + "\n"
 	if c.Marker != "unconfigured" {
-		cfg += "checkbanner = NetSPoC\n"
+		cfg += "checkbanner = " + c.bannerRe() + "\n"
 	}
 	files := map[string]string{".netspoc-approve": cfg, "credentials": "* admin secret\n"}
 	codeDir := "code"
@@ -353,14 +424,11 @@ func (w *world) cliScenario(c Case, compare bool, transcript string) CliScn {
 	if scn.Login == "" {
 		scn.Login = map[string]string{"asa": "enable-pass", "ios": "enable-nopass", "linux": "pass"}[c.Backend]
 	}
-	marker := "managed by NetSPoC"
-	if c.Marker == "absent" {
-		marker = "authorised access only"
-	}
+	marker := c.markerText()
 	if c.Backend == "linux" {
-		scn.Issue = "Debian GNU/Linux\n--- " + marker + " ---\n"
+		scn.Issue = "Debian GNU/Linux\n" + marker + "\n"
 	} else {
-		scn.Banner = "***********************\n** " + marker + " **\n***********************"
+		scn.Banner = "***********************\n" + marker + "\n***********************"
 		if c.Backend == "ios" {
 			scn.Banner = "banner motd " + marker
 		}
@@ -413,6 +481,7 @@ func (w *world) runOnce(c Case, compare bool, tag string) runResult {
 		dev, _ := c.httpIdx()
 		scn := HttpScn{Type: map[string]string{"panos": "PAN-OS", "nsx": "NSX"}[c.Backend], Hostname: c.reportedName(),
 			HA: c.haStates(), Vsys: c.vsys(), Managed: c.managedVsys(), Dirty: c.Dirty, DevRules: dev, DevSvcs: dev,
+			NsxPolicies: c.nsxPolicyIDs(), PageSize: c.PageSize, GroupPages: c.GroupPages, Pend: c.Pend,
 			BadConfig: c.BadConfig, FaultAt: -1}
 		if compare && c.FaultAt >= 0 {
 			scn.FaultAt, scn.FaultKind = c.FaultAt, c.FaultKind
@@ -542,7 +611,7 @@ func modelLine(c Case, compare bool, plan []string) string {
 	if c.OddAction {
 		mode = "do:" + c.Action
 	}
-	banner := "NetSPoC"
+	banner := c.bannerRe()
 	if c.Marker == "unconfigured" {
 		banner = "-"
 	}
@@ -572,7 +641,7 @@ func modelLine(c Case, compare bool, plan []string) string {
 		}
 		scn := w.cliScenario(c, compare, "")
 		p := scn.PromptName
-		pw := scn.Banner + "\nnetspoc@10.1.2.3's password:"
+		pw := scn.Banner + "\nadmin@10.1.2.3's password:"
 		if c.HostKey {
 			add("W", "*", T("Are you sure you want to continue connecting (yes/no)?"))
 			add("L:yes", "0", T("yes\n"+pw))
@@ -628,8 +697,12 @@ func modelLine(c Case, compare bool, plan []string) string {
 		add("P", "*", T("secret\n"+prompt))
 		add("L:hostname -s", "*", T(scn.Hostname+"\n"))
 		grep := ""
-		if c.Marker == "present" {
-			grep = "--- managed by NetSPoC ---\n"
+		if re, err := regexp.Compile(c.bannerRe()); err == nil {
+			for _, l := range strings.Split(scn.Issue, "\n") {
+				if l != "" && re.MatchString(l) {
+					grep += l + "\n"
+				}
+			}
 		}
 		add("A:grep '", "*", T(grep))
 		add("L:echo $?", "*", T("0\n"))
@@ -654,10 +727,36 @@ func modelLine(c Case, compare bool, plan []string) string {
 			add("L:type=config&action=get&xpath=/config/devices", "*", "F:"+c.reportedName()+"|"+strings.Join(l, ","))
 		}
 		add("A:type=commit&action=partial&cmd=", "*", T("6"))
+		for i := 0; i < c.Pend; i++ {
+			add("A:type=op&cmd=<show><jobs><id>", strconv.Itoa(i), T("PEND"))
+		}
 		add("A:type=op&cmd=<show><jobs><id>", "*", T("OK"))
 	case "nsx":
 		if c.BadConfig {
 			add("L:GET /policy/api/v1/infra/domains/default/gateway-policies", "*", "!:undecodable")
+		} else {
+			add("L:GET /policy/api/v1/infra/domains/default/gateway-policies", "*", "G:"+strings.Join(c.nsxPolicyIDs(), ",")+"|")
+		}
+		add("A:GET /policy/api/v1/infra/domains/default/gateway-policies/", "*", "G:|")
+		dev, _ := c.httpIdx()
+		pages := nsxServicePages(HttpScn{DevSvcs: dev, PageSize: c.PageSize})
+		for i, pg := range pages {
+			var ids []string
+			for _, k := range pg {
+				ids = append(ids, fmt.Sprintf("Netspoc-tcp_%d", 80+k))
+			}
+			cur := ""
+			if i+1 < len(pages) {
+				cur = fmt.Sprintf("s%d", i+1)
+			}
+			add("A:GET /policy/api/v1/infra/services?cursor=", strconv.Itoa(i), "G:"+strings.Join(ids, ",")+"|"+cur)
+		}
+		for i := 0; i <= c.GroupPages; i++ {
+			cur := ""
+			if i < c.GroupPages {
+				cur = fmt.Sprintf("g%d", i+1)
+			}
+			add("A:GET /policy/api/v1/infra/domains/default/groups?cursor=", strconv.Itoa(i), "G:|"+cur)
 		}
 	}
 	return strings.Join(f, "\t")
@@ -891,6 +990,49 @@ func matrix(ctx *Ctx, prop string) []Case {
 			}
 		}
 	}
+	// checkbanner regexps × texts the device shows (split, repeated, inside a longer word, other case)
+	texts := []string{"managed by NetSPoC", "xxNetSPoCyy", "NetSPoC NetSPoC", "managed by Net SPoC", "managed by Net\nSPoC here",
+		"managed by netspoc", "authorised access only"}
+	res := map[string][]string{
+		"asa":   {"NetSPoC", "(?i)netspoc", "Net.*SPoC", "managed.by.NetSPoC|NETSPOC", "Net\\s*SPoC", "[Nn]et[Ss][Pp]o[Cc]"},
+		"ios":   {"NetSPoC", "(?i)netspoc", "Net\\s*SPoC"},
+		"linux": {"NetSPoC", "Net.*SPoC", "[Nn]et[Ss][Pp]o[Cc]"},
+	}
+	for _, b := range []string{"asa", "ios", "linux"} {
+		for i, re := range res[b] {
+			for j, tx := range texts {
+				if !ctx.Thorough() && (i+j)%2 == 1 && i > 0 {
+					continue
+				}
+				out = append(out, Case{Backend: b, Front: "drc", Host: "ok", Marker: "present", HA: "off", Pending: 1, FaultAt: -1,
+					BannerRe: re, MarkerText: tx})
+			}
+		}
+	}
+	// PAN-OS display-names: other letter case, inside a longer word, broken by a blank
+	for _, marks := range []string{"U", "x", "s", "mU", "sm", "xs", "Ux"} {
+		for _, pend := range []int{0, 1} {
+			out = append(out, Case{Backend: "panos", Front: "drc", Host: "ok", Marker: "present", HA: "off", Pending: pend, FaultAt: -1, VsysMarks: marks})
+		}
+	}
+	// PAN-OS: the commit job answers PEND several times
+	for _, pend := range []int{1, 3, 7} {
+		for _, fr := range fronts {
+			out = append(out, Case{Backend: "panos", Front: fr, Host: "ok", Marker: "present", HA: "off", Pending: 1, FaultAt: -1, Pend: pend})
+		}
+	}
+	// NSX: listed gateway policies (fetched one by one), paged listings
+	for _, pol := range []int{0, 1, 2} {
+		for _, ps := range []int{0, 1, 2} {
+			for _, gp := range []int{0, 2} {
+				if !ctx.Thorough() && (pol+ps+gp)%2 == 1 {
+					continue
+				}
+				out = append(out, Case{Backend: "nsx", Front: "drc", Host: "ok", Marker: "present", HA: "off", Pending: 3, FaultAt: -1,
+					NsxPolicies: pol, PageSize: ps, GroupPages: gp})
+			}
+		}
+	}
 	// drc without a log directory (-L): compare must end without applying, approve must still obey the gate
 	for _, b := range []string{"asa", "ios", "linux", "panos", "nsx"} {
 		for _, m := range []string{"present", "absent"} {
@@ -946,6 +1088,30 @@ func randomCase(r *RNG, prop string) Case {
 			c.VsysMarks = m
 		}
 		c.Dirty = r.Chance(30)
+	}
+	switch b {
+	case "asa", "ios", "linux":
+		if c.Marker != "unconfigured" && r.Chance(40) {
+			c.Marker = "present"
+			c.BannerRe = Pick(r, []string{"NetSPoC", "Net.*SPoC", "[Nn]et[Ss][Pp]o[Cc]"})
+			if b != "linux" && r.Chance(50) {
+				c.BannerRe = Pick(r, []string{"(?i)netspoc", "managed.by.NetSPoC|NETSPOC", "Net\\s*SPoC"})
+			}
+			c.MarkerText = Pick(r, []string{"managed by NetSPoC", "xxNetSPoCyy", "NetSPoC NetSPoC", "managed by Net SPoC",
+				"managed by Net\nSPoC here", "managed by netspoc", "authorised access only", "NETSPOC"})
+		}
+	case "panos":
+		c.Pend = Pick(r, []int{0, 0, 1, 2, 5})
+		if r.Chance(30) {
+			n := 1 + r.Intn(3)
+			m := ""
+			for i := 0; i < n; i++ {
+				m += Pick(r, []string{"m", "U", "x", "u", "s"})
+			}
+			c.VsysMarks = m
+		}
+	case "nsx":
+		c.NsxPolicies, c.PageSize, c.GroupPages = r.Intn(3), r.Intn(3), r.Intn(3)
 	}
 	if l := errOnCmds[b]; len(l) > 0 && r.Chance(25) {
 		c.ErrOn = Pick(r, l)
@@ -1069,6 +1235,16 @@ func judge(res *Result, o outcome, prop string, mu *sync.Mutex) {
 	}
 	if c.ErrOn != "" {
 		res.Count("error-answer-to:" + c.ErrOn)
+	}
+	if c.BannerRe != "" || c.MarkerText != "" {
+		res.Count("checkbanner:" + c.bannerRe())
+		res.Count("banner-text:" + strconv.Quote(c.markerText()))
+	}
+	if c.Backend == "nsx" {
+		res.Count(fmt.Sprintf("nsx-paging:policies=%d,pagesize=%d,grouppages=%d", c.NsxPolicies, c.PageSize, c.GroupPages))
+	}
+	if c.Pend > 0 {
+		res.Count(fmt.Sprintf("commit-job-pend:%d", c.Pend))
 	}
 	if c.OddAction {
 		res.Count("action-word:" + strconv.Quote(c.Action))
@@ -1244,6 +1420,52 @@ func tail(s string, n int) string {
 	return s
 }
 
+// regexpStream: the Lean regexp matcher (NA/Model/GateText.lean) against Go's regexp on the patterns
+// the code itself uses (prompt and login patterns of pkg/cisco, pkg/linux, pkg/ios), on checkbanner
+// values, and on texts built from the patterns' own alphabet.
+func regexpStream(ctx *Ctx, res *Result, prop string) {
+	patterns := []string{
+		`(?i)password:|\(yes/no.*\)\?`, `(?i)password:`, `\n\r?[^#> ]+[>#] ?$`, `(?i)password:|\n\r?[^#> ]+[>#] ?$`, `#[ ]?`,
+		`\r\n\S*\s?[%>$#]\s?(?:\x27\S*)?`, `\r\n\S*\s?[%>$#]\s?(?:\x27\S*)?|(?i)password:`, `\nrouter#`,
+		`\[yes\/no\]:\ |\[confirm\]`, `--- SHUTDOWN ABORTED ---`, `[#] ?$`, `#[ ]?|\[confirm\]`, `SHUTDOWN in 0?0:01:00`,
+		`\n\n\n\x07[*]{3}\n[*]{3}([^\n]+)\n[*]{3}\n`,
+		`NetSPoC`, `(?i)netspoc`, `Net.*SPoC`, `managed.by.NetSPoC|NETSPOC`, `Net\s*SPoC`, `[Nn]et[Ss][Pp]o[Cc]`, `^managed`, `SPoC$`,
+		`Net\S+C`, `N.t+SPoC?`, `(Net|net)(SPoC|spoc)`, `[^a-z]etSPoC`, `\d+\.\d+`, `\w+@\w+`,
+	}
+	pieces := []string{"NetSPoC", "netspoc", "Net", "SPoC", "managed by ", " ", "\n", "\r\n", "router", "#", ">", "# ", "password:", "Password: ",
+		"(yes/no)? ", "(yes/no/[fingerprint])?", "[confirm]", "[yes/no]: ", "***", "\x07", "x", "NETSPOC", "$", "%", "'abc", "root@host:~", "0:01:00",
+		"SHUTDOWN in ", "--- SHUTDOWN ABORTED ---", "10.1.2.3", "a@b", ""}
+	drv := ctx.StartNadrv(strings.ToLower(prop))
+	defer drv.Close()
+	rng := ctx.Rng.Fork()
+	n := ctx.N(12, 120)
+	for _, p := range patterns {
+		re, err := regexp.Compile(p)
+		if err != nil {
+			res.Disagree("c06 regexp pattern does not compile in Go", p, err.Error(), "")
+			continue
+		}
+		for i := 0; i < n; i++ {
+			k := 1 + rng.Intn(5)
+			text := ""
+			for j := 0; j < k; j++ {
+				text += Pick(rng, pieces)
+			}
+			impl := "0"
+			if re.MatchString(text) {
+				impl = "1"
+			}
+			model := drv.Ask("re\t" + esc(p) + "\t" + esc(text))
+			res.Eval("re:"+p+"\x00"+text, true)
+			res.TracesVsImpl++
+			res.Count("regexp:" + impl)
+			if impl != model {
+				res.Disagree("c06 regexp matcher", map[string]string{"pattern": p, "text": text}, impl, model)
+			}
+		}
+	}
+}
+
 func run(ctx *Ctx, prop string) *Result {
 	res := NewResult()
 	res.Rule = "case = device type × front end × reported hostname {ok, other, prefix, shorter, case} × marker {present, absent, " +
@@ -1308,6 +1530,9 @@ func run(ctx *Ctx, prop string) *Result {
 		sort.SliceStable(cases, func(i, j int) bool { return false })
 	}
 
+	if ctx.Replay == "" {
+		regexpStream(ctx, res, prop)
+	}
 	workers := 12
 	if len(cases) < workers {
 		workers = len(cases)
